@@ -12,7 +12,7 @@ def sig(rec, clauses):
 
 def run(c):
     th = c.thorough()
-    c.rule = ("model: every undirected strength graph on 4 nodes x 1-3 ranks and on 5 nodes x 2-3 ranks (thorough: 1-3, and 6 nodes x 2 "
+    c.rule = ("model: every undirected strength graph on 4 nodes x 1-3 ranks and on 5 nodes x 2 ranks (thorough: 1-3, and 6 nodes x 2 "
               "ranks), every digraph on 3 (thorough: 4) nodes, each with every contiguous partition (empty ranks included) and every order of the ranks "
               "inside a phase, without a round counter (termination is a temporal property); consolidation: every partition of "
               "4 rows over 1-4 ranks x 1-3 requested masters; code: mpirun -n {1,2,3,5} (thorough 1..8): the real pmis on the same "
@@ -41,7 +41,7 @@ def run(c):
         # four small state spaces: run side by side (distinct cfg files: the derived configs must not collide)
         c.parallel([
             lambda: c.tlc_model("PmisModel", constants={"NN": 4, "MinNP": 1, "MaxNP": 3, "Sym": "TRUE"}, workers=4),
-            lambda: c.tlc_model("PmisModel", cfg="PmisModel5.cfg", constants={"NN": 5, "MinNP": 1 if th else 2, "MaxNP": 3, "Sym": "TRUE"},
+            lambda: c.tlc_model("PmisModel", cfg="PmisModel5.cfg", constants={"NN": 5, "MinNP": 1 if th else 2, "MaxNP": 3 if th else 2, "Sym": "TRUE"},
                                 workers=6 if not th else 8, timeout=2400),
             lambda: c.tlc_model("PmisModel", cfg="PmisModelDi.cfg", constants={"NN": 4 if th else 3, "MinNP": 1, "MaxNP": 3, "Sym": "FALSE"},
                                 workers=4 if not th else 8, timeout=2400),
@@ -59,7 +59,7 @@ def run(c):
     def code():
         rs = c.build("record_dist_solve", ["record_dist_solve.cpp"], mpi=True)
         mca = {"OMPI_MCA_mpi_yield_when_idle": 1, "OMPI_MCA_hwloc_base_binding_policy": "none"}
-        stride = {1: 1, 2: 1 if th else 2, 3: 2 if th else 8, 4: 8 if th else 32, 5: 16 if th else 64, 6: 64, 7: 128, 8: 256}
+        stride = {1: 1, 2: 1 if th else 4, 3: 2 if th else 8, 4: 8 if th else 32, 5: 16 if th else 64, 6: 64, 7: 128, 8: 256}
         jobs = []
         for n in nps:
             jobs.append((n, "aggr", {"VERIF_STRIDE": stride[n]}, 1500))
